@@ -3,6 +3,8 @@
 package c04
 
 import (
+	"net"
+	"sync/atomic"
 	"encoding/json"
 	"fmt"
 	"math/rand"
@@ -151,7 +153,10 @@ type genURL struct {
 }
 
 var hostilePathBits = []string{"%0d%0a", "%0D%0AX-Injected:%201", "%00", "%20", "%2F", "%3F", "%23", "%25", "%e2%80%a8", "a%0d%0a%0d%0aGET%20/evil%20HTTP/1.0", "..", ".", "%2e%2e", ";p=1", "@", ":", "~", "!$&'()*+,=", "ü", "日本", "%FF%FE"}
-var hostileQueryBits = []string{"redir=0", "redir=1", "redir=2", "redir=3", "redir=4", "redir=5", "redir=6", "redir=7", "a=b", "x=%0d%0aInjected:%201", "q=%00", "r=%20s", "u=https%3A%2F%2Fe.example%2F", "a=1&b=2&a=3", "=", "&&", "%", "?", "/", "k=v%23w", "k=ü", "%0d%0a%0d%0aGET%20/evil%20HTTP/1.0%0d%0a"}
+var hostileQueryBits = []string{"redir=0", "redir=1", "redir=2", "redir=3", "redir=4", "redir=5", "redir=6", "redir=7", "redir=8", "redir=9", "a=b", "x=%0d%0aInjected:%201", "q=%00", "r=%20s", "u=https%3A%2F%2Fe.example%2F", "a=1&b=2&a=3", "=", "&&", "%", "?", "/", "k=v%23w", "k=ü", "%0d%0a%0d%0aGET%20/evil%20HTTP/1.0%0d%0a"}
+
+// a loopback address of this process alone: its port 443 is the trap for dials that fall back to the default port
+var trapIP = "127.77.0.1"
 
 func genURLFor(r *rand.Rand, s *sim.Sim, tag string, n int) genURL {
 	hosts := []string{s.Host(2), s.Host(3), s.AltHost(4)}
@@ -221,6 +226,12 @@ func genURLFor(r *rand.Rand, s *sim.Sim, tag string, n int) genURL {
 		raw = strings.Replace(raw, "https://"+host, "https://"+s.CanaryHost(4), 1)
 		exp = nil
 		g.Note = "https to a plaintext listener: a TLS ClientHello is the most that may arrive"
+	case x == 8:
+		// a port no TCP stack has: nothing may be dialled - not the default port, not the number modulo 65536
+		bad := []string{"65979", fmt.Sprint(65536 + s.Port), "99999", "4294967739", "65536"}[r.Intn(5)]
+		raw = strings.Replace(raw, "https://"+host, "https://"+trapIP+":"+bad, 1)
+		exp = nil
+		g.Note = "port out of range"
 	case x == 7:
 		raw = " " + raw
 		exp = nil // leading space: Go refuses ("first path segment in URL cannot contain colon") - whatever happens, no malformed request
@@ -255,12 +266,32 @@ func TestVerifC04(t *testing.T) {
 		// addresses carrying redir=<n> answer with a redirect whose Location is relative in one of several ways;
 		// whatever request follows is checked by the same grammar
 		if i := strings.Index(raw, "redir="); i >= 0 && !strings.Contains(raw, "/landed") {
-			locs := []string{"landed/page2", "../landed/up", "?landed=1&x=%0d%0a", "/landed/abs", "./landed/dot", "landed%20with%20space", "//" + rq.Host + "/landed/scheme-relative", "landed/#frag"}
+			locs := []string{"landed/page2", "../landed/up", "?landed=1&x=%0d%0a", "/landed/abs", "./landed/dot", "landed%20with%20space", "//" + rq.Host + "/landed/scheme-relative", "landed/#frag",
+				"http://" + rq.Host + "/landed/nonhttps-hop", "ftp://" + rq.Host + "/landed/nonhttps-hop"}
 			k := int(raw[i+6]-'0') % len(locs)
 			return sim.Respond([]byte("HTTP/1.1 302 Found\r\nLocation: " + locs[k] + "\r\n\r\n"))
 		}
 		return sim.Respond(okBody)
 	})
+	// whoever dials the default https port although the address named another one lands here
+	var on443 atomic.Int64
+	trapIP = fmt.Sprintf("127.77.%d.1", c.R.Shard+1)
+	if ln, err := net.Listen("tcp", trapIP+":443"); err == nil {
+		defer ln.Close()
+		c.Count("port443_listener", 1)
+		go func() {
+			for {
+				cn, err := ln.Accept()
+				if err != nil {
+					return
+				}
+				on443.Add(1)
+				cn.Close()
+			}
+		}()
+	} else {
+		c.Note("port 443 could not be bound (" + err.Error() + "): fallback-to-default-port dials are only seen by the strace observer")
+	}
 	total := c.Share(c.Pick(2400, 50000))
 	tag := fmt.Sprintf("s%d", c.R.Shard)
 	for n := 0; n < total; n++ {
@@ -269,6 +300,7 @@ func TestVerifC04(t *testing.T) {
 		}
 		r := c.Rand(n, 0)
 		mark := s.LogLen()
+		on443.Store(0)
 		var d map[string]any
 		var want *expect
 		wantRequests := 1
@@ -327,7 +359,16 @@ func TestVerifC04(t *testing.T) {
 		}
 		s.WaitIdle(2e9)
 		reqs := s.LogSince(mark)
+		if d["note"] == "port out of range" {
+			c.Count("out_of_range_ports", 1)
+			if on443.Load() > 0 {
+				c.Violation("request:out-of-range-port-dialled-443", fmt.Sprintf("%v names a port that does not exist, and the default https port was dialled instead", d["url"]), d)
+			}
+		}
 		for i, rq := range reqs {
+			if rq.TLS && strings.Contains(string(rq.Raw), "nonhttps-hop") {
+				c.Violation("request:non-https-redirect-followed", fmt.Sprintf("a redirect to a non-https address was followed: %q", ev.Trunc(string(rq.Raw), 200)), d)
+			}
 			w := want
 			if i > 0 || wantRequests < 0 {
 				w = nil
@@ -352,7 +393,7 @@ func TestVerifC04(t *testing.T) {
 		if wantRequests == 0 && len(reqs) > 0 {
 			for _, rq := range reqs {
 				if rq.TLS {
-					c.Violation("request:sent-for-non-https", fmt.Sprintf("a request was sent for %v: %q", d["url"], ev.Trunc(string(rq.Raw), 200)), d)
+					c.Violation("request:sent-for-unfetchable", fmt.Sprintf("a request was sent for %v, which is not an https address with a valid port: %q", d["url"], ev.Trunc(string(rq.Raw), 200)), d)
 				}
 			}
 		}
